@@ -179,6 +179,29 @@ def c10_sig(tr: Trace, c, r):
                     # the inbound transaction's header is wider than max_packet_len provides for:
                     # get_max_seg_reqs_for_max_packet_size_and_pdu_cfg raises ValueError
                     sig = "C10:internal-error:ValueError:dst:nak-base-exceeds-max-packet-len"
+        if (sig.startswith("C10:internal-error:ValueError:src:sm:IDLE") or
+                sig.startswith("C10:internal-error:ValueError:src:sm:TRANSACTION_START")) and idx is not None:
+            e = tr.ev[idx]
+            puts = [x for x in tr.ev[:idx] if x.h == e.h and x.op == "put" and x.st.ok and x.st.ret == "true"]
+            if puts and e.h in tr.remote:
+                from world import kv
+                a = kv(puts[-1].line.split())
+                w = max(int(a["dest"].split("/")[1]), int(tr.hcfg[e.h]["id"].split("/")[1]))
+                bits = [int(l.split()[2]) for l in tr.header if l.split()[0] == "P" and l.split()[1] == tr.hcfg[e.h].get("seqp")]
+                rc = tr.remote[e.h]
+                need = 4 + 2 * w + (bits[0] // 8 if bits else 2) + 4 + (2 if rc["crc"] == "1" else 0)
+                if int(rc["maxpkt"]) < need:
+                    # _calculate_max_file_seg_len: get_max_file_seg_len_for_max_packet_len_and_pdu_cfg raises
+                    sig = "C10:internal-error:ValueError:src:max-packet-len-below-file-data-header"
+        if sig.startswith("C10:internal-error:AttributeError:src:sm:") and idx is not None:
+            e = tr.ev[idx]
+            puts = [x for x in tr.ev[:idx] if x.h == e.h and x.op == "put" and x.st.ok and x.st.ret == "true"]
+            if puts:
+                from world import kv
+                a = kv(puts[-1].line.split())
+                if (a.get("src", "-") == "-") != (a.get("dst", "-") == "-"):
+                    # put request naming only one of source / destination file: `None.as_posix()`
+                    sig = "C10:internal-error:AttributeError:src:put-request-with-one-file-name"
         out.add(sig, det, idx)
     return out
 
